@@ -88,6 +88,9 @@ def run(ctx):
                                                      case=c, expected="ok", got=got, key={"N": n, "class": "concurrent"}))
         if len(pimpl) != len(pcases):
             ctx.broken.append({"kind": "correspondence", "detail": "harness produced %d lines for %d concurrent cases: %s" % (len(pimpl), len(pcases), perr[-500:])})
+    ident_replay = []
+    if ctx.replay and cases and cases[0].startswith("ident "):
+        ident_replay, cases = cases, []
     rc, impl, err = ctx.run_harness(binp, [], cases)
     model = ctx.oracle("C20", cases)
     ctx.diff(cases, impl, model, "KChain.run spec vs real PipeN")
@@ -114,6 +117,23 @@ def run(ctx):
                 v.what += " (in a process that had built other compositions before; the first such case passes when it is run alone)"
             later, sviol = sviol, []
     ctx.violations += sviol
+    # identity of the values handed along (direct oracle only): the steps see and return the very objects — a slice
+    # argument with its capacity, a pointer into it, a resource with a Close method nobody is entitled to call
+    icases = ["ident %d %d" % (n, k) for n in range(2, 21) for k in (1, 3)]
+    if ctx.replay:
+        icases = ident_replay
+    if icases:
+        rci, iimpl, ierr = ctx.run_harness(binp, [], icases)
+        for c, got in zip(icases, iimpl):
+            ctx.count(c)
+            ctx.hist("identity_N", c.split()[1])
+            want = " | ".join(["same cap=8 open"] * int(c.split()[2]))
+            if got != want:
+                n = int(c.split()[1])
+                ctx.violations.append(vlib.Violation("impl", "Pipe%s does not hand on the very values its steps return (argument slice, pointer into it, a resource with a Close method): %s" % ("" if n == 2 else n, got),
+                                                     case=c, expected=want, got=got, key={"N": n, "class": "identity"}))
+        if len(iimpl) != len(icases):
+            ctx.broken.append({"kind": "correspondence", "detail": "harness produced %d lines for %d identity cases: %s" % (len(iimpl), len(icases), ierr[-500:])})
     if not ctx.replay:
         per_family = 1200 if ctx.thorough() else 120
         if ctx.broken:
